@@ -22,6 +22,9 @@ long       vw_b1 = 0, vw_b2 = 0;
 char       vw_log[VW_LOG_SIZE];
 size_t     vw_log_len = 0;
 int        vw_first_cfr_errno = -1;
+int        vw_mode = 0;       // 0: copy (source/destination told apart by the open flags); 1: two read-only files
+int        vw_open_count = 0;
+void (*vw_stat_hook)(const char* path, int ret, const struct stat* sb) = NULL;
 
 void
 vw_reset(void)
@@ -33,6 +36,18 @@ vw_reset(void)
   vw_log_len = 0;
   vw_log[0] = 0;
   vw_first_cfr_errno = -1;
+  vw_mode = 0;
+  vw_open_count = 0;
+  vw_stat_hook = NULL;
+}
+
+void
+vw_logs(const char* text)
+{
+  const size_t n = strlen(text);
+  if (vw_log_len + n + 2 < VW_LOG_SIZE) {
+    vw_log_len += (size_t)snprintf(vw_log + vw_log_len, VW_LOG_SIZE - vw_log_len, "%s%s", vw_log_len ? " " : "", text);
+  }
 }
 
 void
@@ -82,8 +97,9 @@ do_open(int lfs, const char* path, int flags, mode_t mode)
   if (!vw_active) {
     return lfs ? __real_open64(path, flags, mode) : __real_open(path, flags, mode);
   }
-  const int       which = (flags & O_EXCL) ? 1 : (flags & O_TRUNC) ? 2 : 0;
+  const int       which = vw_mode ? (vw_open_count ? 1 : 0) : (flags & O_EXCL) ? 1 : (flags & O_TRUNC) ? 2 : 0;
   const VwOutcome o     = vw_pop();
+  ++vw_open_count;
   if (o.kind == 'E') {
     errno = o.val;
     vw_logf("open", which, -1);
@@ -166,7 +182,11 @@ do_stat(int lfs, const char* path, struct stat* sb)
   }
   const int r = lfs ? __real_stat64(path, sb) : __real_stat(path, sb);
   const int e = errno;
-  vw_logf("stat", 0, r);
+  if (vw_stat_hook) {
+    vw_stat_hook(path, r, sb);
+  } else {
+    vw_logf("stat", 0, r);
+  }
   errno = e;
   return r;
 }
